@@ -435,6 +435,7 @@ noncomputable def construct : Cell ℝ → (PName → ℝ) → Cell ℝ
   | .pl _ _, p => .pl (p .E0) (p .gamma)
   | .cutoff _ _ _, p => .cutoff (p .E0) (p .gamma) (p .Ecut)
   | .logpar _ _ _, p => .logpar (p .E0) (p .alpha) (p .beta)
+  | .func f, _ => .func f
   | .unityT _, p => .unityT ⟨p .tStart, p .tStop⟩
   | .box _, p => .box (boxNew (p .t0) (p .tw))
   | .gauss g, p => .gauss (gaussNew (p .t0) (p .sigmaT) g.tol)
@@ -449,7 +450,7 @@ noncomputable def merged (c : Cell ℝ) (pd : PDict ℝ) : PName → ℝ :=
 
 theorem names_expected (c : Cell ℝ) : c.names expectedNames = match c with
     | .unityS => [] | .point .. => [.ra, .dec] | .unityE => [] | .pl .. => [.E0, .gamma]
-    | .cutoff .. => [.E0, .gamma, .Ecut] | .logpar .. => [.E0, .alpha, .beta]
+    | .cutoff .. => [.E0, .gamma, .Ecut] | .logpar .. => [.E0, .alpha, .beta] | .func .. => []
     | .unityT .. => [.tStart, .tStop] | .box .. => [.t0, .tw] | .gauss .. => [.t0, .sigmaT]
     | .ffm .. => [.Phi0] := by
   cases c <;> rfl
@@ -566,6 +567,7 @@ theorem c13_update_eq_construct (c : Cell ℝ) (pd : PDict ℝ) (hc : Fresh c) :
   cases c with
   | unityS => rfl
   | unityE => rfl
+  | func f => rfl
   | point a b => exact update_point pd a b
   | pl a b => exact update_pl pd a b
   | cutoff a b c => exact update_cutoff pd a b c
@@ -1399,6 +1401,330 @@ theorem c13_set_params_pqp (c : Cell ℝ) (p q : PDict ℝ) (n : PName) (v : ℝ
     cases c <;> rfl
   rw [hk _ q h1, hk c p hc]; exact hn
 
+/-! ## 9. deepening: `updated` flag, error paths of `set_params`, units as state, internal flux unit -/
+
+namespace C13
+
+theorem setOne_flag_mono (pd : PDict ℝ) (acc : Cell ℝ × Bool) (n : PName) (h : acc.2 = true) :
+    (setOne pd acc n).2 = true := by
+  unfold setOne
+  cases acc.1.getAttr n with
+  | none => exact h
+  | some cur => dsimp only; split_ifs <;> simp [h]
+
+theorem setOne_flag_false (pd : PDict ℝ) (acc : Cell ℝ × Bool) (n : PName) (h : (setOne pd acc n).2 = false) :
+    setOne pd acc n = acc := by
+  unfold setOne at h ⊢
+  cases hg : acc.1.getAttr n with
+  | none => rfl
+  | some cur =>
+    simp only [hg] at h ⊢
+    split_ifs at h ⊢ with hne
+    all_goals first | rfl | (exfalso; simp at h)
+
+theorem fold_flag_false (pd : PDict ℝ) (l : List PName) (acc : Cell ℝ × Bool)
+    (h : (l.foldl (setOne pd) acc).2 = false) : l.foldl (setOne pd) acc = acc := by
+  induction l generalizing acc with
+  | nil => rfl
+  | cons n l ih =>
+    rw [List.foldl_cons] at h ⊢
+    have h1 : (setOne pd acc n).2 = false := by
+      by_contra hne
+      have ht : (setOne pd acc n).2 = true := by simpa using hne
+      have : ∀ (l : List PName) (a : Cell ℝ × Bool), a.2 = true → (l.foldl (setOne pd) a).2 = true := by
+        intro l
+        induction l with
+        | nil => intro a ha; exact ha
+        | cons m l ihl => intro a ha; rw [List.foldl_cons]; exact ihl _ (setOne_flag_mono pd a m ha)
+      rw [this l _ ht] at h
+      cases h
+    rw [ih _ h, setOne_flag_false pd acc n h1]
+
+end C13
+
+/-- **`updated = False` means nothing changed** (for every `param_names`, every object, every dict):
+if `set_params` reports no update the object is exactly as before. -/
+theorem c13_updated_false_unchanged (pn : ParamNames) (c : Cell ℝ) (pd : PDict ℝ)
+    (h : (c.setParams pn pd).2 = false) : (c.setParams pn pd).1 = c := by
+  unfold Cell.setParams at h ⊢
+  rw [C13.fold_flag_false pd _ _ h]
+
+/-- conversely on a `Fresh` object: a dictionary that changes a parameter value is reported -/
+theorem c13_updated_true_of_change (c : Cell ℝ) (pd : PDict ℝ) (hc : Fresh c)
+    (hne : construct c (merged c pd) ≠ c) : (c.setParams expectedNames pd).2 = true := by
+  by_contra hf
+  have hf' : (c.setParams expectedNames pd).2 = false := by simpa using hf
+  have := c13_updated_false_unchanged expectedNames c pd hf'
+  rw [c13_update_eq_construct c pd hc] at this
+  exact hne this
+namespace C13
+
+/-- every value of the dictionary is a number -/
+def AllNum (pd : PDictV ℝ) : Prop := ∀ p ∈ pd, ∃ x, p.2 = PVal.num x
+
+theorem lookup_nums (pd : PDictV ℝ) (h : AllNum pd) (n : PName) :
+    pd.lookup n = (pd.nums.lookup n).map PVal.num := by
+  induction pd with
+  | nil => rfl
+  | cons p pd ih =>
+    obtain ⟨m, v⟩ := p
+    obtain ⟨x, hx⟩ := h (m, v) List.mem_cons_self
+    simp only at hx
+    subst hx
+    have ih' := ih (fun q hq => h q (List.mem_cons_of_mem _ hq))
+    simp only [PDictV.nums, List.lookup_cons]
+    cases hnm : (n == m) <;> simp [ih']
+
+theorem setOneV_num (pd : PDictV ℝ) (h : AllNum pd) (c : Cell ℝ) (u : Bool) (n : PName) :
+    setOneV pd ⟨c, u, none⟩ n = ⟨(setOne pd.nums (c, u) n).1, (setOne pd.nums (c, u) n).2, none⟩ := by
+  unfold setOneV setOne
+  simp only
+  cases c.getAttr n with
+  | none => rfl
+  | some cur =>
+    simp only [lookup_nums pd h n]
+    cases pd.nums.lookup n with
+    | none => simp
+    | some v =>
+      simp only [Option.map_some, Option.getD_some]
+      split_ifs <;> rfl
+
+theorem foldV_num (pd : PDictV ℝ) (h : AllNum pd) (l : List PName) (c : Cell ℝ) (u : Bool) :
+    l.foldl (setOneV pd) ⟨c, u, none⟩ =
+      ⟨(l.foldl (setOne pd.nums) (c, u)).1, (l.foldl (setOne pd.nums) (c, u)).2, none⟩ := by
+  induction l generalizing c u with
+  | nil => rfl
+  | cons n l ih => rw [List.foldl_cons, List.foldl_cons, setOneV_num pd h, ih]
+
+theorem foldV_err (pd : PDictV ℝ) (l : List PName) (st : SetSt ℝ) (e : SetErr) (h : st.err = some e) :
+    l.foldl (setOneV pd) st = st := by
+  induction l generalizing st with
+  | nil => rfl
+  | cons n l ih =>
+    rw [List.foldl_cons]
+    have : setOneV pd st n = st := by unfold setOneV; rw [h]
+    rw [this, ih st h]
+
+end C13
+
+/-- **no error for numeric values (refinement)**: for a dictionary of numbers the general
+`set_params` raises nothing and is the `set_params` of the update theorems. -/
+theorem c13_set_params_v_num (pn : ParamNames) (c : Cell ℝ) (pd : PDictV ℝ) (h : C13.AllNum pd) :
+    c.setParamsV pn pd = ⟨(c.setParams pn pd.nums).1, (c.setParams pn pd.nums).2, none⟩ := by
+  unfold Cell.setParamsV Cell.setParams
+  exact C13.foldV_num pd h _ c false
+
+/-- **post-state of a raising `set_params`**: with `param_names = pre ++ n :: post`, if the loop reaches
+`n` without exception and the value for `n` cannot be cast to float (or is an array), then the exception
+is raised *after* all names in `pre` were assigned: the object keeps those new values, `n` and everything
+in `post` are untouched. -/
+theorem c13_set_params_v_error_prefix (pd : PDictV ℝ) (c : Cell ℝ) (pre post : List PName) (n : PName)
+    (cur : ℝ) (v : PVal ℝ) (e : SetErr)
+    (hpre : (pre.foldl (setOneV pd) ⟨c, false, none⟩).err = none)
+    (hattr : (pre.foldl (setOneV pd) ⟨c, false, none⟩).cell.getAttr n = some cur)
+    (hv : pd.lookup n = some v)
+    (hve : (v = .bad ∧ e = .typeError) ∨ (v = .arr ∧ e = .valueError)) :
+    (pre ++ n :: post).foldl (setOneV pd) ⟨c, false, none⟩ =
+      { pre.foldl (setOneV pd) ⟨c, false, none⟩ with err := some e } := by
+  rw [List.foldl_append, List.foldl_cons]
+  set st := pre.foldl (setOneV pd) ⟨c, false, none⟩ with hst
+  have hstep : setOneV pd st n = { st with err := some e } := by
+    unfold setOneV
+    rw [hpre, hattr, hv]
+    rcases hve with ⟨rfl, rfl⟩ | ⟨rfl, rfl⟩ <;> rfl
+  rw [hstep]
+  exact C13.foldV_err pd post _ e rfl
+
+/-- `set_params` is **not atomic**: a dictionary whose second value is not castable leaves the first
+parameter updated although the call raised (`PowerLaw(E0=1, gamma=2).set_params({'E0': 5, 'gamma': 'abc'})`
+→ TypeError, `E0 == 5`). Replayed on the code in every run (history class `error`). -/
+theorem c13_set_params_not_atomic :
+    ∃ (c : Cell ℝ) (pd : PDictV ℝ), (c.setParamsV expectedNames pd).err = some .typeError ∧
+      (c.setParamsV expectedNames pd).cell ≠ c := by
+  have h1 : (PName.gamma == PName.E0) = false := by decide
+  refine ⟨.pl 1 2, [(.E0, .num 5), (.gamma, .bad)], ?_, ?_⟩
+  · simp [Cell.setParamsV, C13.names_expected, setOneV, Cell.getAttr, Cell.setAttr, List.lookup, h1]
+  · simp [Cell.setParamsV, C13.names_expected, setOneV, Cell.getAttr, Cell.setAttr, List.lookup, h1]
+/-- **unit invariance with the unit as state**: the profile's own unit has scale `own`; the same quantity
+given as `x` in unit `su` or as `x * su/su'` in unit `su'` reaches the profile as the same number — in
+every branch of the code's test `unit != self._unit` (no conversion when the units are equal). -/
+theorem c13_unit_factor_invariance (x own su su' : ℝ) (ho : own ≠ 0) (hs' : su' ≠ 0) :
+    conv (x * C13.unitTo su su') (unitFactor own (some su')) = conv x (unitFactor own (some su)) := by
+  unfold unitFactor C13.unitTo
+  by_cases h1 : su' = own <;> by_cases h2 : su = own <;> simp [h1, h2, conv] <;> field_simp
+  all_goals (try (subst h1; field_simp))
+
+/-- no unit given = the own unit given -/
+theorem c13_unit_factor_own (x own : ℝ) : conv x (unitFactor own (some own)) = conv x (unitFactor own none) := by
+  simp [unitFactor, conv]
+
+/-- `to_internal_flux_unit`: conversion factors compose and the factor to the own units is 1 -/
+theorem c13_to_internal_compose (sa se sl st va ve vl vt ia ie il it : ℝ)
+    (h1 : va ≠ 0) (h2 : ve ≠ 0) (h3 : vl ≠ 0) (h4 : vt ≠ 0) (h5 : sa ≠ 0) (h6 : se ≠ 0) (h7 : sl ≠ 0) (h8 : st ≠ 0) :
+    toInternalFlux sa se sl st ia ie il it
+      = toInternalFlux sa se sl st va ve vl vt * toInternalFlux va ve vl vt ia ie il it := by
+  unfold toInternalFlux; field_simp
+
+theorem c13_to_internal_self (sa se sl st : ℝ) (h5 : sa ≠ 0) (h6 : se ≠ 0) (h7 : sl ≠ 0) (h8 : st ≠ 0) :
+    toInternalFlux sa se sl st sa se sl st = 1 := by
+  unfold toInternalFlux; field_simp
+
+/-- the flux array is linear in the normalisation: converting `Phi0` with the internal-unit factor
+converts every flux value with it -/
+theorem c13_flux_scale (k phi0 : ℝ) (S E T : List ℝ) :
+    fluxOuter (k * phi0) S E T = (fluxOuter phi0 S E T).map (List.map (List.map (k * ·))) := by
+  unfold fluxOuter
+  simp only [List.map_map]
+  congr 1; funext s; simp only [Function.comp, List.map_map]
+  congr 1; funext e; simp only [Function.comp, List.map_map]
+  congr 1; funext t; simp only [Function.comp]; ring
+namespace C13
+
+theorem setAttr_nameStrings (pn : ParamNames) (c : Cell ℝ) (n : PName) (v : ℝ) :
+    (c.setAttr n v).nameStrings pn = c.nameStrings pn := by
+  cases c <;> cases n <;> rfl
+
+theorem setOne_nameStrings (pn : ParamNames) (pd : PDict ℝ) (acc : Cell ℝ × Bool) (n : PName) :
+    (setOne pd acc n).1.nameStrings pn = acc.1.nameStrings pn := by
+  unfold setOne
+  cases acc.1.getAttr n with
+  | none => rfl
+  | some cur =>
+    dsimp only
+    split_ifs
+    · exact setAttr_nameStrings pn _ _ _
+    · rfl
+
+theorem setParams_names (pn : ParamNames) (c : Cell ℝ) (pd : PDict ℝ) :
+    (c.setParams pn pd).1.names pn = c.names pn := by
+  unfold Cell.names
+  congr 1
+  unfold Cell.setParams
+  have : ∀ (l : List PName) (acc : Cell ℝ × Bool),
+      (l.foldl (setOne pd) acc).1.nameStrings pn = acc.1.nameStrings pn := by
+    intro l
+    induction l with
+    | nil => intro acc; rfl
+    | cons m l ih => intro acc; rw [List.foldl_cons, ih, setOne_nameStrings]
+  exact this (c.names pn) (c, false)
+
+theorem findSome_unique {α β : Type} (f : α → Option β) (l : List α) (k : α) (v : β)
+    (hk : k ∈ l) (hfk : f k = some v) (hother : ∀ j ∈ l, j ≠ k → f j = none) :
+    l.findSome? f = some v := by
+  induction l with
+  | nil => cases hk
+  | cons a l ih =>
+    rw [List.findSome?_cons]
+    by_cases ha : a = k
+    · subst ha; rw [hfk]
+    · rw [hother a List.mem_cons_self ha]
+      have hk' : k ∈ l := by
+        rcases List.mem_cons.mp hk with h | h
+        · exact absurd h.symm ha
+        · exact h
+      exact ih hk' (fun j hj => hother j (List.mem_cons_of_mem _ hj))
+
+end C13
+
+/-- **what is set through a flux model is read back through it** (`FactorizedFluxModel.set_params`
+then `get_param`, both as coded: delegation to the profiles / first object that knows the name): if the
+name `n` belongs to exactly one of the model's objects `k` (own `Phi0` or one profile), that object is
+`Fresh`, and the dictionary has a value for `n`, then `get_param(n)` on the model returns that value. -/
+theorem c13_heap_get_after_set (h : Heap ℝ) (i k : Nat) (pd : PDict ℝ) (n : PName) (v : ℝ) (c : Cell ℝ)
+    (hnd : (targets h i).Nodup) (hall : ∀ j ∈ targets h i, ∃ cj, h[j]? = some cj)
+    (hk : k ∈ targets h i) (hc : h[k]? = some c) (hcF : Fresh c)
+    (hn : n ∈ c.names expectedNames) (hv : pd.lookup n = some v)
+    (huniq : ∀ j cj, j ∈ targets h i → h[j]? = some cj → n ∈ cj.names expectedNames → j = k) :
+    (h.setParams expectedNames i pd).1.getParam expectedNames i n = some v := by
+  have hdel : ∀ j cj, j ∈ targets h i → h[j]? = some cj →
+      (h.setParams expectedNames i pd).1[j]? = some (cj.setParams expectedNames pd).1 :=
+    fun j cj hj hcj => c13_ffm_set_params_delegates expectedNames h i j pd cj hnd hj hcj
+  -- the model still refers to the same objects
+  have hi : i ∈ targets h i := by
+    rw [C13.targets_eq] at hk ⊢
+    cases hci : h[i]? with
+    | none => simp [hci] at hk
+    | some ci => simp
+  obtain ⟨ci, hci⟩ := hall i hi
+  have htg : targets (h.setParams expectedNames i pd).1 i = targets h i := by
+    rw [C13.targets_eq, C13.targets_eq, hdel i ci hi hci, hci]
+    simp only [C13.cell_setParams_refs]
+  unfold Heap.getParam
+  rw [htg]
+  apply C13.findSome_unique _ _ k v hk
+  · rw [hdel k c hk hc]
+    simp only [Cell.getParam, C13.setParams_names, hn, if_true]
+    exact c13_get_after_set c pd n v hcF hn hv
+  · intro j hj hjk
+    obtain ⟨cj, hcj⟩ := hall j hj
+    rw [hdel j cj hj hcj]
+    simp only [Cell.getParam, C13.setParams_names]
+    rw [if_neg]
+    intro hmem
+    exact hjk (huniq j cj hj hcj hmem)
+/-- a box constructed with a non-negative width has an ordered window (discharges `hse`) -/
+theorem c13_box_window_ordered (t0 tw : ℝ) (htw : 0 ≤ tw) :
+    (boxNew t0 tw).tStart ≤ (boxNew t0 tw).tStop := by
+  simp only [boxNew]; linarith
+
+/-- **box, constructed object**: closed form = integral of the profile values, for every `t1 ≤ t2` -/
+theorem c13_box_integral_constructed (t0 tw : ℝ) (htw : 0 ≤ tw) {t1 t2 : ℝ} (h12 : t1 ≤ t2) :
+    ∫ t in t1..t2, boxCall (boxNew t0 tw) t = boxIntegral (boxNew t0 tw) t1 t2 :=
+  c13_box_integral _ (c13_box_window_ordered t0 tw htw) h12
+
+/-- the width survives `set_params` / `move`: a box updated with a non-negative `tw` is ordered again -/
+theorem c13_box_window_ordered_after_set (w : Win ℝ) (v : ℝ) (hv : 0 ≤ v) :
+    (boxSetTw w v).tStart ≤ (boxSetTw w v).tStop := by
+  rw [C13.boxSetTw_eq]; exact c13_box_window_ordered _ _ hv
+
+/-- full statement without the width guard … -/
+def c13_box_integral_all_widths_statement : Prop :=
+  ∀ (t0 tw t1 t2 : ℝ), t1 ≤ t2 → ∫ t in t1..t2, boxCall (boxNew t0 tw) t = boxIntegral (boxNew t0 tw) t1 t2
+
+/-- … is false for the code as it is: `BoxTimeFluxProfile(t0=0.5, tw=-1)` has only zero values but
+`get_integral(-5, 5) = -1` (open finding `C13/neg_width/box`, replayed on the code in every run). -/
+theorem c13_box_integral_all_widths_counterexample : ¬ c13_box_integral_all_widths_statement := by
+  intro h
+  have h1 := h (1 / 2) (-1) (-5) 5 (by norm_num)
+  have hz : ∀ t : ℝ, boxCall (boxNew (1 / 2) (-1)) t = 0 := by
+    intro t
+    unfold boxCall
+    apply if_neg
+    rintro ⟨ha, hb⟩
+    simp only [boxNew] at ha hb
+    norm_num at ha hb
+    linarith
+  simp only [hz, intervalIntegral.integral_zero] at h1
+  simp only [boxIntegral, boxNew, minF, maxF] at h1
+  norm_num at h1
+
+/-- the targets of a copy are distinct objects (discharges `Nodup` of the delegation theorem for copies) -/
+theorem c13_copy_targets_nodup (h h' : Heap ℝ) (i j : Nat) (hcp : h.copy i = some (h', j)) :
+    (targets h' j).Nodup := by
+  unfold Heap.copy at hcp
+  cases hc : h[i]? with
+  | none => simp [hc] at hcp
+  | some c =>
+    rw [hc] at hcp
+    cases c with
+    | ffm phi0 rs =>
+      simp only [Option.some.injEq, Prod.mk.injEq] at hcp
+      obtain ⟨rfl, rfl⟩ := hcp
+      rw [C13.targets_eq]
+      have hj : (h ++ List.filterMap (fun x => h[x]?) rs ++
+          [Cell.ffm phi0 (List.range' h.length (List.filterMap (fun x => h[x]?) rs).length)])[
+          h.length + (List.filterMap (fun x => h[x]?) rs).length]? =
+          some (Cell.ffm phi0 (List.range' h.length (List.filterMap (fun x => h[x]?) rs).length)) := by
+        rw [List.getElem?_append_right (by simp)]; simp
+      rw [hj]
+      simp only [C13.refs, List.nodup_cons, List.mem_range'_1]
+      exact ⟨by omega, List.nodup_range'⟩
+    | _ =>
+      simp only [Option.some.injEq, Prod.mk.injEq] at hcp
+      obtain ⟨rfl, rfl⟩ := hcp
+      rw [C13.targets_eq]
+      simp [C13.refs]
+
 /-! ## non-vacuity of the hypotheses used above -/
 
 example : ∃ E0 γ E1 E2 : ℝ, 0 < E0 ∧ 0 < E1 ∧ 0 < E2 ∧ γ ≠ 1 :=
@@ -1437,3 +1763,17 @@ example : ([(PName.t0, (1:ℝ)), (PName.tw, 2)] : PDict ℝ).lookup .t0 = some 1
     PName.t0 ∈ (Cell.box ⟨3, 5⟩ : Cell ℝ).names expectedNames := by
   refine ⟨rfl, ?_⟩
   rw [C13.names_expected]; simp
+example : C13.AllNum ([(PName.E0, PVal.num 5), (PName.gamma, PVal.num 2)] : PDictV ℝ) := by
+  intro p hp
+  simp only [List.mem_cons, List.not_mem_nil, or_false] at hp
+  rcases hp with rfl | rfl <;> exact ⟨_, rfl⟩
+example : (0:ℝ) ≤ 2 ∧ (1:ℝ) ≠ 0 ∧ (1000:ℝ) ≠ 0 := by norm_num
+/-- `c13_heap_get_after_set`: in the example heap `gamma` belongs to exactly one object of the model -/
+example : ∀ j cj, j ∈ targets ([.unityS, .pl 1 2, .box ⟨0, 1⟩, .ffm 1 [0, 1, 2]] : Heap ℝ) 3 →
+    ([.unityS, .pl 1 2, .box ⟨0, 1⟩, .ffm 1 [0, 1, 2]] : Heap ℝ)[j]? = some cj →
+    PName.gamma ∈ cj.names expectedNames → j = 1 := by
+  intro j cj hj hcj hn
+  simp [targets] at hj
+  rcases hj with rfl | rfl | rfl | rfl <;>
+    simp only [List.getElem?_cons_succ, List.getElem?_cons_zero, Option.some.injEq] at hcj <;>
+    subst hcj <;> simp [C13.names_expected] at hn ⊢
